@@ -249,3 +249,11 @@ M("C14-view-before-abs", "C14", "R14.4", ("utils.py", "        x, y = abs(x), ab
 M("C14-ulp-machep", "C14", "R14.5", ("utils.py", "    return numpy.ldexp(dtype(1), numpy.frexp(x)[1] + numpy.finfo(dtype).negep)", "    return numpy.ldexp(dtype(1), numpy.frexp(x)[1] + numpy.finfo(dtype).machep)"))
 N("C14-neutral-absdiff-order", "C14", ("utils.py", "                result = ix - iy if ix >= iy else iy - ix", "                result = iy - ix if iy >= ix else ix - iy"))
 N("C14-neutral-sum-order", "C14", ("utils.py", "                result = ix + iy\n", "                result = iy + ix\n"))
+
+# ----------------------------------------------------------------------------- C13 algebra
+M("C13-f2f-exponent", "C13", "R13.3", ("utils.py", "        e = epart + fi.minexp - 1\n", "        e = epart + fi.minexp\n"))
+M("C13-f2f-subnormal-denom", "C13", "R13.3", ("utils.py", "            denom = mxu * (1 << (-e - 1))", "            denom = mxu * (1 << (-e))"))
+M("C13-f2f-hidden-bit", "C13", "R13.3", ("utils.py", "            num = (1 - 2 * s) * (mxu + fpart)\n            denom = mxu * (1 << (-e))", "            num = (1 - 2 * s) * (fpart)\n            denom = mxu * (1 << (-e))"))
+M("C13-f2f-sign", "C13", "R13.3", ("utils.py", "            num = (1 - 2 * s) * (mxu + fpart) * (1 << e)\n            denom = mxu", "            num = (mxu + fpart) * (1 << e)\n            denom = mxu"))
+M("C13-f2mpf-exponent", "C13", "R13.4", ("utils.py", "        exp_ = exponent - prec\n", "        exp_ = exponent - prec + 1\n"))
+N("C13-neutral-f2f-order", "C13", ("utils.py", "            num = (1 - 2 * s) * (mxu + fpart) * (1 << e)\n            denom = mxu", "            num = (1 << e) * (mxu + fpart) * (1 - 2 * s)\n            denom = mxu"))
